@@ -823,8 +823,7 @@ func TestCheck(t *testing.T) {
 							tw.Add(1)
 						}
 						if f := evaluate(seq); f != nil {
-							cp := append([]op{}, seq...)
-							report(run, &fam, target, cp, f)
+							collect(l, x, seq, f)
 						}
 						if l >= 2 {
 							classes.Store(classKey(seq, what), true)
@@ -832,6 +831,7 @@ func TestCheck(t *testing.T) {
 					}
 					done.Add(int64(cnt))
 				})
+				flush(run, &fam, target)
 				classes.Range(func(k, _ interface{}) bool {
 					run.Class(fam.name + "/" + addrNames[target] + "/" + k.(string))
 					return true
@@ -882,20 +882,60 @@ func shape(seq []op) string {
 	return strings.Join(s, " ")
 }
 
+// Failing sequences are first collected - one per (oracle, field, shape of the sequence), the one with
+// the smallest enumeration index - and then processed in a fixed order after each length, so that the
+// reported signatures do not depend on goroutine scheduling.
+type cand struct {
+	l, idx int
+	seq    []op
+	f      *fail
+}
+
 var (
-	preSeen   sync.Map // family/target/oracle/field/shape of the unshrunk sequence: shrink one of each only
-	processed sync.Map // family/target -> *atomic.Int64
+	pendMu    sync.Mutex
+	pending   = map[string]*cand{}
+	preSeen   = map[string]bool{}
+	processed = map[string]int{}
 )
 
-func report(run *ev.Run, fam *family, target int, seq []op, f *fail) {
-	pre := fmt.Sprintf("%s/%d/%s/%s/%s", fam.name, target, f.oracle, f.field, shape(seq))
-	if _, dup := preSeen.LoadOrStore(pre, true); dup {
+func collect(l, idx int, seq []op, f *fail) {
+	pre := fmt.Sprintf("%s/%s/%s", f.oracle, f.field, shape(seq))
+	pendMu.Lock()
+	defer pendMu.Unlock()
+	if c, ok := pending[pre]; ok && (c.l < l || c.l == l && c.idx <= idx) {
 		return
 	}
-	cnt, _ := processed.LoadOrStore(fmt.Sprintf("%s/%d", fam.name, target), new(atomic.Int64))
-	if cnt.(*atomic.Int64).Add(1) > 600 {
-		return // hundreds of differently shaped failing sequences: the run fails anyway
+	pending[pre] = &cand{l, idx, append([]op{}, seq...), f}
+}
+
+func flush(run *ev.Run, fam *family, target int) {
+	pendMu.Lock()
+	var keys []string
+	for k := range pending {
+		keys = append(keys, k)
 	}
+	sort.Strings(keys)
+	cs := make([]*cand, 0, len(keys))
+	for _, k := range keys {
+		full := fmt.Sprintf("%s/%d/%s", fam.name, target, k)
+		if !preSeen[full] {
+			preSeen[full] = true
+			cs = append(cs, pending[k])
+		}
+	}
+	pending = map[string]*cand{}
+	pendMu.Unlock()
+	sort.Slice(cs, func(a, b int) bool { return cs[a].idx < cs[b].idx })
+	ft := fmt.Sprintf("%s/%d", fam.name, target)
+	for _, c := range cs {
+		if processed[ft]++; processed[ft] > 600 {
+			return // hundreds of differently shaped failing sequences: the run fails anyway
+		}
+		report(run, fam, target, c.seq, c.f)
+	}
+}
+
+func report(run *ev.Run, fam *family, target int, seq []op, f *fail) {
 	for i := 0; i < 3; i++ {
 		g := evaluate(seq)
 		if g == nil || g.oracle != f.oracle || g.field != f.field {
